@@ -40,10 +40,11 @@ def warm():
     cf_mc(wd)
     idstar_mc(wd)
     cf.gen(wd, "A3", 3, 3, 2, False)
+    cf.gen(wd, "A3", 3, 2, 2, True)
 
 
 def records(wd, tier):
-    items, g = cf.event_family(wd, tier, three_world=8 if tier == "quick" else 40)
+    items, g = cf.event_family(wd, tier, three_world=8 if tier == "quick" else 40, reflexive=12 if tier == "quick" else 40)
     groups = cf.run_y0(wd, "star", items, "c07")
     vs, st, by_id = cf.judge(wd, groups, seeds=(1, 2))
     return vs, st, by_id, g
@@ -64,7 +65,8 @@ def run(tier: str) -> int:
     cov = cf.coverage(vs, by_id, st, g,
                       "one record = id_star(G, event) for a TLC-generated conjunction of 1-3 atoms over a 3-node ADMG (fixed "
                       "deterministic family: every single atom, a graph-dependent slice of all pairs, a graph-dependent slice of "
-                      "the three-atom events that span three different worlds); the returned expression, read "
+                      "the three-atom events that span three different worlds, every single atom with a reflexive subscript and a slice of "
+                      "the pairs with one such atom); the returned expression, read "
                       "with the event's values, is evaluated by TLC in functional models with shared noise on all base assignments "
                       "and compared with P(event); non-trivial = distinct (graph, event) with an answer on a graph with a bidirected edge",
                       {"design_mc": [mc, mc2], "y0_outcome_vs_reference_idstar": xtab})
